@@ -1,27 +1,39 @@
 use proc_macro2::TokenStream;
 use quote::quote;
-use syn::{Field, Ident, Index};
+use syn::{Field, Index};
 
-pub fn tuple_exprs(fields: &[&Field], method_ident: &Ident) -> Vec<TokenStream> {
+/// `method` is the fully qualified path of the trait's method (so that an inherent method of the
+/// same name on a field's type is never picked instead), `self_ref` is how the method takes its
+/// receiver (nothing or `&mut`).
+pub fn tuple_exprs(
+    fields: &[&Field],
+    method: &TokenStream,
+    self_ref: &TokenStream,
+) -> Vec<TokenStream> {
     let mut exprs = vec![];
 
     for i in 0..fields.len() {
         let i = Index::from(i);
-        // generates `self.0.add(rhs.0)`
-        let expr = quote! { self.#i.#method_ident(rhs.#i) };
+        // generates `Add::add(self.0, rhs.0)`
+        let expr = quote! { #method(#self_ref self.#i, rhs.#i) };
         exprs.push(expr);
     }
     exprs
 }
 
-pub fn struct_exprs(fields: &[&Field], method_ident: &Ident) -> Vec<TokenStream> {
+/// See [`tuple_exprs()`].
+pub fn struct_exprs(
+    fields: &[&Field],
+    method: &TokenStream,
+    self_ref: &TokenStream,
+) -> Vec<TokenStream> {
     let mut exprs = vec![];
 
     for field in fields {
         // It's safe to unwrap because struct fields always have an identifier
         let field_id = field.ident.as_ref().unwrap();
-        // generates `x: self.x.add(rhs.x)`
-        let expr = quote! { self.#field_id.#method_ident(rhs.#field_id) };
+        // generates `Add::add(self.x, rhs.x)`
+        let expr = quote! { #method(#self_ref self.#field_id, rhs.#field_id) };
         exprs.push(expr)
     }
     exprs
